@@ -2,10 +2,17 @@
 
 use crate::report::{Ctx, Report};
 
+pub mod c04;
+pub mod c18;
 pub mod c20;
+pub mod codec;
 
 pub fn dispatch(ctx: &Ctx) -> Option<Report> {
     Some(match ctx.prop.as_str() {
+        "C02" => codec::run_c02(ctx),
+        "C03" => codec::run_c03(ctx),
+        "C04" => c04::run(ctx),
+        "C18" => c18::run(ctx),
         "C20" => c20::run(ctx),
         _ => return None,
     })
